@@ -594,6 +594,16 @@ func (c *Ctx) len1(v ssa.Value) lin.Form {
 		if isByteSeq(st) && isByteSeq(dt) {
 			return c.LenOf(x.X)
 		}
+		// []rune(string): at most one rune per byte
+		if isByteSeq(st) {
+			if sl, ok := dt.(*types.Slice); ok {
+				if b, ok := sl.Elem().Underlying().(*types.Basic); ok && b.Kind() == types.Int32 {
+					f := c.lenTermOf(v)
+					c.add(lin.LE(f, c.LenOf(x.X)))
+					return f
+				}
+			}
+		}
 	case *ssa.ChangeType:
 		return c.LenOf(x.X)
 	case *ssa.UnOp:
